@@ -49,6 +49,14 @@ def run(ctx):
             # (FileDone(false) -> error -> connection closed with code 0) then competes with the reader's own error
             cases.append(base(f"flip-{at}-race", files=[dict(one[0])], streams=1, delay_point="recv.after_finalize", delay_ms=25, delay_arg=0,
                               faults=[{"from_a": True, "stream": 1, "a_to_b": True, "at": at, "kind": "flip", "conn": 0}], _kind="flip-race"))
+    # the receiver rejects the last outstanding file and the sender's completion callback is slow (the CLI installs one): the sender's
+    # workers poll every 200 ms for "all files done" while the rejection is still being handled
+    for at in range(16, 4 * frame, frame if ctx.tier == "quick" else 7):
+        if at % frame >= 16:
+            for close_like in (True, False):
+                cases.append(base(f"flip-{at}-slow-done-cb-{'close' if close_like else 'open'}", files=[dict(one[0])], streams=1, sender_done_delay_ms=900, close_like_app=close_like,
+                                  delay_point="recv.after_finalize", delay_ms=60, delay_arg=0,
+                                  faults=[{"from_a": True, "stream": 1, "a_to_b": True, "at": at, "kind": "flip", "conn": 0}], _kind="flip-slow-callback"))
     # the same flips under the other file-hash settings (the frame checksum must not depend on them)
     for alg in ("none", "xxhash64"):
         for at in range(0, 4 * frame, 1 if ctx.tier == "thorough" else 5):
